@@ -156,6 +156,7 @@ func scratchRoot() string {
 
 // Close stops the wallet and removes every scratch file.
 func (h *H) Close() {
+	delete(retiredScripts, h)
 	if h.W != nil {
 		h.W.Stop()
 	}
@@ -375,8 +376,14 @@ func (h *H) matureCoins(next uint64) []*Coin {
 		l = append(l, c)
 	}
 	sort.Slice(l, func(i, j int) bool {
+		// order by the history's own transaction numbers, not by hash: wallet keys are random per run, so
+		// hashes (and an order derived from them) differ between two runs of the same seed
 		a, b := l[i].Op, l[j].Op
 		if a.Hash != b.Hash {
+			ia, ib := h.TxID[a.Hash], h.TxID[b.Hash]
+			if ia != ib {
+				return ia < ib
+			}
 			return strings.Compare(a.Hash.String(), b.Hash.String()) < 0
 		}
 		return a.Index < b.Index
